@@ -115,15 +115,34 @@ def chain_strategy(craq, safe):
     return s
 
 
+def _duels():
+    """First writes of a fresh key on two (or three) different leaders only 0..8 ticks apart, so a peer's
+    Replicate for the brand-new key lands while the local write of that key is still inside its store latency."""
+    duel = st.fixed_dictionaries({"k": st.integers(0, 4), "t0": st.integers(0, 40), "gap": st.integers(0, 8),
+                                  "la": st.integers(0, 2), "third": st.sampled_from([None, None, 0, 2, 5])})
+
+    def flat(ds):
+        out = []
+        for d in ds:
+            out.append({"t": d["t0"], "k": d["k"], "leader": d["la"]})
+            out.append({"t": d["t0"] + d["gap"], "k": d["k"], "leader": d["la"] + 1})
+            if d["third"] is not None:
+                out.append({"t": d["t0"] + d["third"], "k": d["k"], "leader": d["la"] + 2})
+        return out
+    return st.lists(duel, min_size=1, max_size=4, unique_by=lambda d: d["k"]).map(flat)
+
+
 def ml_strategy(safe):
     def s(tier):
         names = [f"L{i}" for i in range(3)]
         links = [f"{a}>{b}" for a in names for b in names if a != b]
+        scattered = _writes(tier, {"leader": st.integers(0, 2), "t": st.integers(0, 24) | st.integers(0, 200),
+                                   "k": st.sampled_from([0, 0, 0, 1, 2, 3, 4])})
         return st.fixed_dictionaries({
             "n": st.integers(2, 3), "resolver": st.sampled_from(["lww", "vc"]),
-            "wl": st.lists(st.integers(0, 4), max_size=3),
+            "wl": st.lists(st.integers(0, 8), max_size=3),
             "ae": st.sampled_from([0, 1, 2]), "picks": st.lists(st.integers(0, 3), max_size=8),
-            "writes": _writes(tier, {"leader": st.integers(0, 2), "t": st.integers(0, 24) | st.integers(0, 200)}),
+            "writes": scattered if safe else st.one_of(scattered, _duels(), _duels()),
             "delays": _delays(links), "safe": st.just(safe),
         })
     return s
@@ -446,7 +465,9 @@ def ex_chain(case):
 
 
 # ------------------------------------------------------------------------------ multi-leader
-AE_TICKS = [64, 96, 128]
+AE_TICKS = [128, 160, 192]
+ML_KEYS = ["k0", "k1", "k2", "k3", "k4"]
+ML_WL = 8                      # largest store write latency (ticks) in the multi-leader runs
 
 
 def ex_ml(case):
@@ -464,7 +485,11 @@ def ex_ml(case):
     ae = AE_TICKS[_n(case.get("ae"), 0, 2)]
     net = rn.Net(case.get("delays"))
     mk_res = (lambda: LastWriterWins()) if res_name == "lww" else (lambda: VectorClockMerge())
-    leaders = [ml_mod.LeaderNode(f"L{i}", store=rn.kv(f"L{i}_store", 1, _wl(case, i, safe)), network=net.net,
+    def wl(i):
+        w = _n(cyc(case.get("wl"), i, 1), 0, ML_WL)
+        return max(w, 1) if safe else w
+
+    leaders = [ml_mod.LeaderNode(f"L{i}", store=rn.kv(f"L{i}_store", 1, wl(i)), network=net.net,
                                  conflict_resolver=mk_res(), anti_entropy_interval=ae / 512)
                for i in range(n)]
     for ld in leaders:
@@ -475,28 +500,38 @@ def ex_ml(case):
                 net.link(a, b)
     names = [ld.name for ld in leaders]
     stores = {ld.name: ld.store for ld in leaders}
-    watch = rn.Watch(stores, KEYS)
+    watch = rn.Watch(stores, ML_KEYS)
     keep = rn.keeper()
     writes = []
     per_key = {}
     for i, w in enumerate(_lst(case.get("writes"))[:12]):
         if not isinstance(w, dict):
             continue
-        k = KEYS[_n(w.get("k"), 0, 2)]
+        k = ML_KEYS[_n(w.get("k"), 0, 4)]
         t = _n(w.get("t"), 0, 200)
         if safe:
             m = per_key.get(k, 0)
             per_key[k] = m + 1
             t = m * GAP + t % 8
-        writes.append((t, k, f"v{i}", leaders[_n(w.get("leader"), 0, 2) % n]))
+        writes.append((t, k, f"v{i}", leaders[_n(w.get("leader"), 0, 5) % n]))
     t_last = max([t for t, *_ in writes], default=0)
-    t_quiet = t_last + 4 + DMAX + 4 + 1                       # every Replicate delivered and applied
+    t_quiet = t_last + ML_WL + DMAX + ML_WL + 1                       # every Replicate delivered and applied
     rounds = 4 * (n - 1) + 2
     t_end = (t_quiet // ae + 1 + rounds) * ae + ae // 2
     sim = Simulation(entities=[net.net, keep, *leaders, *stores.values()], end_time=Instant(t_end * TICK))
     arrivals = {nm: [] for nm in names}        # (key, (writer, vc[writer])) per Replicate arrival
+    by_name = dict(zip(names, leaders))
     rep_at = {}                                # (value, leader) -> arrival t_ns of the Replicate
     write_at = {}
+    inprog = {}                                # (leader, key) -> local writes started, reply future unresolved
+    during_put = [0]                           # Replicates for a key arriving while a local write of it is in its put
+    fresh_during_put = [0]                     # ... and the leader advertises no version for the key yet
+
+    def on_resolved(f, t):
+        ldn, k = f[0]
+        inprog[(ldn, k)] = inprog.get((ldn, k), 1) - 1
+
+    watch.on_resolved = on_resolved
 
     base_on_event = watch.on_event
 
@@ -510,16 +545,24 @@ def ex_ml(case):
             w = md.get("writer_id")
             arrivals[tn].append((f"{md.get('key')}|{w}", (md.get("vector_clock") or {}).get(w, 0)))
             rep_at[(md.get("value"), tn)] = event.time.nanoseconds
+            if inprog.get((tn, md.get("key")), 0) > 0:
+                during_put[0] += 1
+                if md.get("key") not in by_name[tn].versions or by_name[tn].store.get_sync(md.get("key")) is None:
+                    fresh_during_put[0] += 1
         elif et == "Write" and tn in arrivals:
             md = event.context.get("metadata", {})
             write_at[md.get("value")] = (event.time.nanoseconds, tn, md.get("key"))
+            if not md.get("reply_future").is_resolved:
+                inprog[(tn, md.get("key"))] = inprog.get((tn, md.get("key")), 0) + 1
         base_on_event(event)
 
     watch.on_event = on_event
     shim = rn.PeerShim(0, case.get("picks"))
     with patched_random(shim, ml_mod):
         for t, k, v, ld in writes:
-            sim.schedule(rn.ev(t, "Write", ld, key=k, value=v, reply_future=SimFuture()))
+            fut = SimFuture()
+            watch.watch_future((ld.name, k), fut)
+            sim.schedule(rn.ev(t, "Write", ld, key=k, value=v, reply_future=fut))
         for ld in leaders:
             e = ld.get_anti_entropy_event()
             if e is not None:
@@ -543,8 +586,11 @@ def ex_ml(case):
         if syncs < rounds:
             r.labels.append("inconclusive-few-ae-rounds")
         else:
-            for k in KEYS:
+            for k in ML_KEYS:
                 vals = {nm: watch.current(nm, k) for nm in names}
+                # not a clause (the statement speaks of the values the replicas hold): recorded as a label only
+                if any(getattr(ld.versions.get(k), "value", None) != vals[ld.name] for ld in leaders):
+                    r.labels.append("store-differs-from-advertised-version")
                 if len(set(vals.values())) > 1:
                     cause = "concurrent-writes" if k in conc_keys else "causal-writes"
                     r.add(f"{P}/{obl}/diverged/{cause}/{res_name}",
@@ -552,11 +598,13 @@ def ex_ml(case):
                           f"versions {[(nm, getattr(ld.versions.get(k), 'timestamp', None), getattr(ld.versions.get(k), 'writer_id', None)) for nm, ld in zip(names, leaders)]}")
     # did the replicas still disagree when every Replicate had been delivered (anti-entropy had work to do)?
     tq = t_quiet * TICK
-    needed_ae = any(len({watch.values_until(nm, k, tq)[-1] for nm in names}) > 1 for k in KEYS)
-    r.nontrivial = (conc or inv) if not safe else len({k for _, k, _, _ in writes}) < len(writes)
+    needed_ae = any(len({watch.values_until(nm, k, tq)[-1] for nm in names}) > 1 for k in ML_KEYS)
+    r.nontrivial = (conc or inv or during_put[0] > 0) if not safe else len({k for _, k, _, _ in writes}) < len(writes)
     r.labels += [res_name, f"n{n}", "concurrent" if conc else "causal", "inversion" if inv else "in-order",
-                 "ae-had-to-repair" if needed_ae else "converged-before-ae-tail"]
-    r.target = float(conc) + float(inv)
+                 "ae-had-to-repair" if needed_ae else "converged-before-ae-tail",
+                 "replicate-during-local-put" if during_put[0] else "no-replicate-during-local-put",
+                 "fresh-key-replicate-during-local-put" if fresh_during_put[0] else "no-fresh-key-race"]
+    r.target = float(conc) + float(inv) + 2.0 * min(during_put[0], 6) + 3.0 * min(fresh_during_put[0], 6)
     return r
 
 
@@ -674,7 +722,7 @@ OBLIGATIONS = [
                "key written twice and at least one read."),
     Obligation("multi-leader", ml_strategy(False), ex_ml, {"quick": 340, "thorough": 60000},
                _RULE_NET + "2..3 LeaderNodes (LWW or vector-clock resolver), writers on different leaders (write times up to "
-               "200 ticks, so anti-entropy rounds interleave with writes), same-instant writes included; anti-entropy from the start (interval 64/96/128 ticks, peer picks from the case then "
+               "200 ticks, so anti-entropy rounds interleave with writes), same-instant writes included; anti-entropy from the start (interval 128/160/192 ticks, peer picks from the case then "
                "round-robin) and 4(n-1)+2 more rounds after the last delivery. Non-trivial = two writes to one key on "
                "different leaders, each made before the other's Replicate arrived, or inverted delivery."),
     Obligation("multi-leader-safe", ml_strategy(True), ex_ml, {"quick": 150, "thorough": 24000},
